@@ -45,10 +45,10 @@ def run(ctx):
     n = 800 if ctx.tier == "quick" else 20000
     ctx.stream("tok", [fcdrv], env=gocommon.fc_env("tok", "%d %d" % (ctx.seed + 3, n)), timeout=3000)
     # offside model vs the real tokenizer + parser
-    bargs = "%d 150 5" % (ctx.seed + 11) if ctx.tier == "quick" else "%d 4000 8" % (ctx.seed + 11)
+    bargs = "%d 150 5" % (ctx.seed + 11) if ctx.tier == "quick" else "%d 2500 6" % (ctx.seed + 11)
     ctx.stream("c06.block", [fcdrv], env=gocommon.fc_env("c06block", bargs), timeout=6000)
     # layout metamorphic runs + dedent test
-    args = "%d 120 6" % ctx.seed if ctx.tier == "quick" else "%d 1200 20" % ctx.seed
+    args = "%d 120 6" % ctx.seed if ctx.tier == "quick" else "%d 800 14" % ctx.seed
     r = ctx.run_harness([fcdrv], env=gocommon.fc_env("c06", args), timeout=20000)
     ok = r is not None
     if ok:
@@ -84,7 +84,7 @@ def run(ctx):
             ctx.direct.append({"kind": "layout finding not listed as known", "program": open(p).read(), "observed": st})
         else:
             ctx.notes.append("known finding %s no longer reproduces" % kid)
-    ctx.finish(rule="tokenizer streams (columns included) + one abstract program per case rendered under 6 (quick) / 20 (thorough) random layouts with independent choices at every block, statement, arm, definition and pipeline stage, emitted Go compared byte for byte with the canonical layout's; dedent test on if-only bodies; c06.block: random block structures x random layouts, model reading of the real token stream vs the real parser's block structure vs the rendered structure; distinct = distinct abstract programs")
+    ctx.finish(rule="tokenizer streams (columns included) + one abstract program per case rendered under 6 (quick) / 14 (thorough) random layouts with independent choices at every block, statement, arm, definition and pipeline stage, emitted Go compared byte for byte with the canonical layout's; dedent test on if-only bodies; c06.block: random block structures x random layouts, model reading of the real token stream vs the real parser's block structure vs the rendered structure; distinct = distinct abstract programs")
 
 
 def replay(ctx, path):
